@@ -9,8 +9,8 @@
 #include "vp_models_impl.h"
 int nondet_int(void); _Bool nondet_bool(void);
 /* abstract operands: answer depends only on K and the argument VALUE; every evaluation is logged */
-_Bool abs_ans[4]; int abs_calls[4]; const int *abs_arg[4]; int abs_val[4];
-static _Bool abs_eval(int k, int *v) { abs_calls[k]++; abs_arg[k] = v; abs_val[k] = *v; return abs_ans[k]; }
+_Bool in_ans[4]; int in_x, in_v, in_w, in_m; _Bool in_pnull; int abs_calls[4]; const int *abs_arg[4]; int abs_val[4];
+static _Bool abs_eval(int k, int *v) { abs_calls[k]++; abs_arg[k] = v; abs_val[k] = *v; return in_ans[k]; }
 _Bool ABS1(PM_NOT_T0 *unused_self_type_only, int *v);
 _Bool f__ZNK14vp_trompeloeil6vp_absILi1EE7matchesERKi(struct S_vp_abs_1 *self, int *v) { return abs_eval(1, v); }
 _Bool f__ZNK14vp_trompeloeil6vp_absILi2EE7matchesERKi(struct S_vp_abs_2 *self, int *v) { return abs_eval(2, v); }
@@ -24,11 +24,11 @@ unsigned long vpx_strlen__char_p(char *s) { __CPROVER_assert(s != 0, "[C10] SAFE
 int *vpx_op_call__vp_memfn_p_S_vp_S_p(struct vp_memfn *f, struct S_vp_S *v) { return &v->m; }
 #include "unit.c"
 
-static void init_abs(void) { for (int k = 1; k <= 3; k++) { abs_ans[k] = nondet_bool(); abs_calls[k] = 0; } }
-#define ARG(x) int x = nondet_int(); struct vp_refw_int u; u.p = &x;
+static void init_abs(void) { for (int k = 1; k <= 3; k++) { in_ans[k] = nondet_bool(); abs_calls[k] = 0; } }
+#define ARG(x) int x = nondet_int(); in_x = x; struct vp_refw_int u; u.p = &x;
 
 #define CMP_OBLIGATION(fn, PM, OP, text) \
-void fn(void) { ARG(x) PM##_T0 m; int v = nondet_int(); m.value._0 = v; _Bool r = PM(&m, &u); \
+void fn(void) { ARG(x) PM##_T0 m; int v = nondet_int(); in_v = v; m.value._0 = v; _Bool r = PM(&m, &u); \
   __CPROVER_assert(r == (x OP v), "[C10] POST " text); __CPROVER_assert(0, "REACH! " text); }
 CMP_OBLIGATION(m_eq, PM_EQ, ==, "eq_accepts_exactly_x_eq_v")
 CMP_OBLIGATION(m_ne, PM_NE, !=, "ne_accepts_exactly_x_ne_v")
@@ -39,16 +39,16 @@ CMP_OBLIGATION(m_ge, PM_GE, >=, "ge_accepts_exactly_x_ge_v")
 CMP_OBLIGATION(m_eq_typed, PM_EQ_T, ==, "explicitly_typed_eq_accepts_exactly_x_eq_v")
 CMP_OBLIGATION(m_lt_typed, PM_LT_T, <,  "explicitly_typed_lt_accepts_exactly_x_lt_v")
 
-void m_value(void) { ARG(x) int v = nondet_int(); _Bool r = PM_VALUE(&v, &u); __CPROVER_assert(r == (x == v), "[C10] POST plain_value_operand_accepts_exactly_equal"); __CPROVER_assert(0, "REACH! value"); }
+void m_value(void) { ARG(x) int v = nondet_int(); in_v = v; _Bool r = PM_VALUE(&v, &u); __CPROVER_assert(r == (x == v), "[C10] POST plain_value_operand_accepts_exactly_equal"); __CPROVER_assert(0, "REACH! value"); }
 void m_wildcard(void) { ARG(x) PM_WILD_T0 w; PM_ANYT_T0 a; __CPROVER_assert(PM_WILD(&w, &u) && PM_ANYT(&a, &u), "[C10] POST wildcard_and_ANY_accept_everything"); __CPROVER_assert(0, "REACH! wildcard"); }
 
 void m_not(void) { init_abs(); ARG(x) PM_NOT_T0 m; _Bool r = PM_NOT(&m, &u);
-  __CPROVER_assert(r == !abs_ans[1], "[C10] POST not_accepts_exactly_what_its_operand_rejects");
+  __CPROVER_assert(r == !in_ans[1], "[C10] POST not_accepts_exactly_what_its_operand_rejects");
   __CPROVER_assert(abs_calls[1] == 1 && abs_val[1] == x, "[C10] POST not_evaluates_its_operand_once_on_the_same_argument");
   __CPROVER_assert(0, "REACH! not"); }
 
-void m_deref(void) { init_abs(); int x = nondet_int(); int *p = nondet_bool() ? &x : (int *)0; PM_DEREF_T1 u; u.p = &p; PM_DEREF_T0 m; _Bool r = PM_DEREF(&m, &u);
-  __CPROVER_assert(r == (p != 0 && abs_ans[1]), "[C10] POST deref_accepts_iff_non_null_and_operand_accepts_the_pointee");
+void m_deref(void) { init_abs(); int x = nondet_int(); in_x = x; in_pnull = nondet_bool(); int *p = !in_pnull ? &x : (int *)0; PM_DEREF_T1 u; u.p = &p; PM_DEREF_T0 m; _Bool r = PM_DEREF(&m, &u);
+  __CPROVER_assert(r == (p != 0 && in_ans[1]), "[C10] POST deref_accepts_iff_non_null_and_operand_accepts_the_pointee");
   __CPROVER_assert(p != 0 || abs_calls[1] == 0, "[C10] POST deref_never_evaluates_the_operand_on_a_null_pointer");
   __CPROVER_assert(p == 0 || (abs_calls[1] == 1 && abs_arg[1] == &x), "[C10] POST deref_passes_the_pointee");
   __CPROVER_assert(p != 0, "REACH deref.null"); __CPROVER_assert(0, "REACH! deref"); }
@@ -56,23 +56,23 @@ void m_deref(void) { init_abs(); int x = nondet_int(); int *p = nondet_bool() ? 
 void m_any_of(void) { init_abs(); ARG(x)
   PM_ANY0_T0 m0; PM_ANY1_T0 m1; PM_ANY2_T0 m2; PM_ANY3_T0 m3;
   __CPROVER_assert(PM_ANY0(&m0, &u) == 0, "[C10] POST any_of_nothing_rejects");
-  __CPROVER_assert(PM_ANY1(&m1, &u) == abs_ans[1], "[C10] POST any_of_one_operand");
-  __CPROVER_assert(PM_ANY2(&m2, &u) == (abs_ans[1] || abs_ans[2]), "[C10] POST any_of_accepts_iff_at_least_one_operand_accepts");
-  __CPROVER_assert(PM_ANY3(&m3, &u) == (abs_ans[1] || abs_ans[2] || abs_ans[3]), "[C10] POST any_of_accepts_iff_at_least_one_operand_accepts");
+  __CPROVER_assert(PM_ANY1(&m1, &u) == in_ans[1], "[C10] POST any_of_one_operand");
+  __CPROVER_assert(PM_ANY2(&m2, &u) == (in_ans[1] || in_ans[2]), "[C10] POST any_of_accepts_iff_at_least_one_operand_accepts");
+  __CPROVER_assert(PM_ANY3(&m3, &u) == (in_ans[1] || in_ans[2] || in_ans[3]), "[C10] POST any_of_accepts_iff_at_least_one_operand_accepts");
   __CPROVER_assert(0, "REACH! any_of"); }
 void m_all_none_of(void) { init_abs(); ARG(x)
   PM_ALL0_T0 a0; PM_NONE0_T0 n0; PM_ALL3_T0 a3; PM_NONE3_T0 n3;
   __CPROVER_assert(PM_ALL0(&a0, &u) == 1 && PM_NONE0(&n0, &u) == 1, "[C10] POST all_of_and_none_of_nothing_accept");
-  __CPROVER_assert(PM_ALL3(&a3, &u) == (abs_ans[1] && abs_ans[2] && abs_ans[3]), "[C10] POST all_of_accepts_iff_every_operand_accepts");
-  __CPROVER_assert(PM_NONE3(&n3, &u) == !(abs_ans[1] || abs_ans[2] || abs_ans[3]), "[C10] POST none_of_accepts_iff_no_operand_accepts");
+  __CPROVER_assert(PM_ALL3(&a3, &u) == (in_ans[1] && in_ans[2] && in_ans[3]), "[C10] POST all_of_accepts_iff_every_operand_accepts");
+  __CPROVER_assert(PM_NONE3(&n3, &u) == !(in_ans[1] || in_ans[2] || in_ans[3]), "[C10] POST none_of_accepts_iff_no_operand_accepts");
   for (int k = 1; k <= 3; k++) __CPROVER_assert(abs_calls[k] == 0 || abs_val[k] == x, "[C10] POST operands_see_the_same_argument");
   __CPROVER_assert(0, "REACH! all_none_of"); }
-void m_any_of_value(void) { init_abs(); ARG(x) PM_ANY_VAL_T0 m; int v = nondet_int(); m.value._0 = v; _Bool r = PM_ANY_VAL(&m, &u);
-  __CPROVER_assert(r == (x == v || abs_ans[1]), "[C10] POST plain_values_as_operands_of_any_of_compare_equal");
+void m_any_of_value(void) { init_abs(); ARG(x) PM_ANY_VAL_T0 m; int v = nondet_int(); in_v = v; m.value._0 = v; _Bool r = PM_ANY_VAL(&m, &u);
+  __CPROVER_assert(r == (x == v || in_ans[1]), "[C10] POST plain_values_as_operands_of_any_of_compare_equal");
   __CPROVER_assert(0, "REACH! any_of_value"); }
 
-void m_member_is(void) { init_abs(); struct S_vp_S sv; sv.m = nondet_int(); PM_MEMBER_T1 u; u.p = &sv; PM_MEMBER_T0 m; _Bool r = PM_MEMBER(&m, &u);
-  __CPROVER_assert(r == abs_ans[1] && abs_calls[1] == 1 && abs_val[1] == sv.m, "[C10] POST member_is_accepts_iff_the_operand_accepts_the_member");
+void m_member_is(void) { init_abs(); struct S_vp_S sv; sv.m = nondet_int(); in_m = sv.m; PM_MEMBER_T1 u; u.p = &sv; PM_MEMBER_T0 m; _Bool r = PM_MEMBER(&m, &u);
+  __CPROVER_assert(r == in_ans[1] && abs_calls[1] == 1 && abs_val[1] == sv.m, "[C10] POST member_is_accepts_iff_the_operand_accepts_the_member");
   __CPROVER_assert(0, "REACH! member_is"); }
 
 void m_re(void) { char buf[4]; char *s = nondet_bool() ? &buf[0] : (char *)0; PM_RE_T1 u; u.p = &s; PM_RE_T0 m; re_result = nondet_bool(); re_calls = 0; strlen_result = 2;
@@ -89,4 +89,16 @@ void m_re_string(void) { struct vp_string sv; PM_RE_STR_T1 u; u.p = &sv; PM_RE_S
   __CPROVER_assert(r == re_result && re_calls == 1, "[C10] POST re_on_a_string_object_accepts_iff_regex_found");
   __CPROVER_assert(re_b == str_buf && re_e == str_buf + str_len, "[C10] POST re_searches_the_whole_string_object_data_to_data_plus_length");
   __CPROVER_assert(0, "REACH! re_string"); }
+/* nullptr as operand and as plain value, on a pointer argument */
+void m_null(void) { int x; in_pnull = nondet_bool(); int *p = !in_pnull ? &x : (int *)0; PM_EQ_NULL_T1 u; u.p = &p; PM_EQ_NULL_T0 e; PM_NE_NULL_T0 n; void *np = 0;
+  __CPROVER_assert(PM_EQ_NULL(&e, &u) == (p == 0), "[C10] POST eq_nullptr_accepts_exactly_the_null_pointer");
+  __CPROVER_assert(PM_NE_NULL(&n, &u) == (p != 0), "[C10] POST ne_nullptr_accepts_exactly_non_null_pointers");
+  __CPROVER_assert(PM_NULLPTR(&np, &u) == (p == 0), "[C10] POST plain_nullptr_operand_accepts_exactly_the_null_pointer");
+  __CPROVER_assert(p != 0, "REACH null.null"); __CPROVER_assert(0, "REACH! null"); }
+/* concrete nesting (no abstract operand): *eq(v) and *!gt(v) */
+void m_nested(void) { int x = nondet_int(); in_x = x; in_pnull = nondet_bool(); int *p = !in_pnull ? &x : (int *)0; PM_DEREF_EQ_T1 u; u.p = &p; int v = nondet_int(), w = nondet_int(); in_v = v; in_w = w;
+  PM_DEREF_EQ_T0 de; de.m.value._0 = v; PM_DEREF_NOT_GT_T0 dn; dn.m.m.value._0 = w;
+  __CPROVER_assert(PM_DEREF_EQ(&de, &u) == (p != 0 && x == v), "[C10] POST nested_deref_of_eq");
+  __CPROVER_assert(PM_DEREF_NOT_GT(&dn, &u) == (p != 0 && !(x > w)), "[C10] POST nested_deref_of_not_of_gt");
+  __CPROVER_assert(0, "REACH! nested"); }
 int main(void) { VP_ENTRY(); return 0; }
